@@ -440,6 +440,10 @@ class C12:
                             g = self.guarded(view, prov, bi, roots, wrapper)
                             if g:
                                 auto = "guarded: " + g
+                        if not auto and wrapper == "Odd":
+                            g = low_bit_forced(view, op, bi)
+                            if g:
+                                auto = "low bit forced: " + g
                         detail["why"] = ("%s(..) built from %s with no dominating/gating invariant check on "
                                          "that value and no valid-wrapper provenance" % (wrapper, detail["roots"]))
                         self.judge(key, "c12.create", s[3], view, op, auto, detail)
@@ -613,6 +617,98 @@ class C12:
 
 class RootT(mir.Root):
     __slots__ = ()
+
+
+def _copy_chain(view, op):
+    """[(local, block where it is copied onwards)] for an operand that is a chain of plain copies / moves:
+    the operand's own local first (copied onwards at the use site = None), then its sources"""
+    out = []
+    if op[0] not in ("c", "m") or op[1][1]:
+        return out
+    cur = op[1][0]
+    onward = None
+    for _ in range(5):
+        out.append((cur, onward))
+        defs = []
+        for bi, bb in enumerate(view.blocks):
+            if bb["cleanup"]:
+                continue
+            for s in bb["stmts"]:
+                if s[0] == "a" and s[1][0] == cur and not s[1][1]:
+                    defs.append((bi, s[2]))
+        if len(defs) == 1 and defs[0][1][0] == "use" and defs[0][1][1][0] in ("c", "m") and not defs[0][1][1][1][1]:
+            onward = defs[0][0]
+            cur = defs[0][1][1][1][0]
+        else:
+            break
+    return out
+
+
+def _const_zero(view, local):
+    for bb in view.blocks:
+        for s in bb["stmts"]:
+            if s[0] == "a" and s[1][0] == local and not s[1][1]:
+                rv = s[2]
+                return rv[0] == "use" and rv[1][0] == "k" and str(rv[1][2]).split("_")[0] == "0"
+    return False
+
+
+def low_bit_forced(view, op, site_bb):
+    """`v.limbs[0] |= Limb::ONE` (or `v |= ONE`) on the wrapped value, dominating the construction and not followed
+    by another mutation of v: x | 1 is odd whatever x is."""
+    for v, onward in _copy_chain(view, op):
+        g = _low_bit_forced_on(view, v, site_bb, onward)
+        if g:
+            return g
+    return None
+
+
+def _low_bit_forced_on(view, v, site_bb, onward):
+    or_site = None
+    mut_blocks = []
+    refs = {}
+    for bi, bb in enumerate(view.blocks):
+        if bb["cleanup"]:
+            continue
+        for s in bb["stmts"]:
+            if s[0] != "a":
+                continue
+            if s[1][0] == v and s[1][1]:
+                mut_blocks.append(bi)
+            rv = s[2]
+            if rv[0] in ("ref", "rawptr") and (rv[1] == "mut" or "Mut" in str(rv[1])) and rv[2][0] == v and not s[1][1]:
+                refs[s[1][0]] = (bi, rv[2][1])
+                mut_blocks.append(bi)
+    for bi, t in view.calls():
+        if view.blocks[bi]["cleanup"] or mir.last_seg(mir.callee_decl(t)) != "bitor_assign" or len(t["args"]) != 2:
+            continue
+        a0, a1 = t["args"]
+        if a0[0] not in ("c", "m") or a0[1][1] or a0[1][0] not in refs:
+            continue
+        if a1[0] != "k" or not str(a1[3] or "").endswith("::ONE"):
+            continue
+        rbi, proj = refs[a0[1][0]]
+        ok = True
+        for pe in proj:
+            if isinstance(pe, list) and pe[0] == "i":
+                ok = ok and _const_zero(view, pe[1])
+            elif isinstance(pe, list) and pe[0] == "ci":
+                ok = ok and pe[1] == 0 and not pe[2]
+            elif isinstance(pe, list) and pe[0] == "f":
+                continue
+            else:
+                ok = False
+        if ok and view.dominates(bi, site_bb):
+            or_site = (bi, rbi, t["s"])
+    if or_site is None:
+        return None
+    bi, rbi, span = or_site
+    if onward is not None and not (view.dominates(bi, onward) and onward != bi):
+        return None     # the value was copied onwards before the low bit was forced
+    for mb in mut_blocks:
+        if mb != rbi and not (view.dominates(mb, bi) and mb != bi):
+            return None
+    return "`|= ONE` on the lowest limb at %s dominates the construction and is the last mutation" % span
 
 
 def _wrapper_field(proj):
